@@ -3,6 +3,7 @@ C09 — sessions are granted only to authorised keys and the fixed service users
 -/
 import DtailModel.Model.Auth
 import DtailModel.Lemmas.GenAuth
+import DtailModel.Lemmas.GenKeys
 set_option autoImplicit false
 namespace Dtail.C09
 open Dtail
@@ -89,6 +90,38 @@ theorem C09_health_only (name : Bytes) :
 theorem C09_service_users_distinct :
     Facts.healthUserBytes ≠ Facts.scheduleUserBytes ∧ Facts.healthUserBytes ≠ Facts.continuousUserBytes
     ∧ Facts.scheduleUserBytes ≠ Facts.continuousUserBytes := by decide
+
+/-- **Tie G: the public-key check as translated from the working tree accepts exactly the listed keys.**
+    `verifyAuthorizedKeys` of internal/ssh/server/publickeycallback.go, translated on this run (`ssh.ParseAuthorizedKey` is a
+    parameter; a key is its marshalled form; the loop runs on fuel).  Under the parser's contract — on the content `enc lines`
+    it skips to the first key line and hands back that key and the content of the lines behind it, or fails when no line is a
+    key; it consumes something whenever it succeeds — and with fuel for the lines and the bytes: the translated function
+    never panics and returns a nil error, granting the session, exactly when some line of the file carries the offered key —
+    comments, blank lines, options and garbage anywhere, also after the last key (the repaired defect). -/
+theorem C09_generated_key_check_accepts_exactly_listed (ext : Go.Ext) (keyOf : Bytes → Option Key) (enc : List Bytes → Bytes)
+    (hc : GenKeys.Contract ext keyOf enc) (hs : GenKeys.Shrinks ext) (u : Go.GoUser) (lines : List Bytes) (offered : Key)
+    (hf : (enc lines).length < ext.fuel) (hl : lines.length < ext.fuel) :
+    ∃ e, Gen.Keys.verifyAuthorizedKeys ext u (enc lines) offered = Outcome.ok ((), e) ∧
+      (e = none ↔ ∃ l ∈ lines, keyOf l = some offered) := by
+  refine ⟨_, GenKeys.verify_spec ext hs u (enc lines) offered hf, ?_⟩
+  rw [GenKeys.keysG_model ext keyOf enc hc]
+  have hm := mem_collectKeys keyOf ext.fuel lines offered hl
+  rw [← hm, ← List.contains_iff_mem]
+  cases (collectKeys keyOf ext.fuel lines).contains offered <;> simp
+
+/-- non-vacuity: a two-key file with a trailing comment, parsed by a toy `ParseAuthorizedKey` over newline-terminated lines
+    (lines starting with 'k' are keys) -/
+example :
+    let parse : Go.GoString → Go.GoString × Go.GoString × List Go.GoString × Go.GoString × Go.GoErr := fun b =>
+      let ls := (splitOnByte NL b).dropLast
+      match ls.dropWhile (fun l => l.head? ≠ some 107) with
+      | [] => ([], [], [], [], some [])
+      | k :: rest => (k, [], [], rest.flatMap (· ++ [NL]), none)
+    let ext : Go.Ext := { parseFloat := fun _ => (0, none), parseAuthorizedKey := parse, fuel := 40 }
+    Gen.Keys.verifyAuthorizedKeys ext {} (b!"# c\nk1\n\nk2\n# trailing\n") (b!"k2") = Outcome.ok ((), none) ∧
+    (match Gen.Keys.verifyAuthorizedKeys ext {} (b!"# c\nk1\n\nk2\n# trailing\n") (b!"k3") with
+      | .ok (_, some _) => true | _ => false) = true := by
+  decide
 
 /-- **Tie G: the password callback as translated from the working tree grants exactly the three documented cases.**
     `Server.Callback` and `backgroundCanSSH` of internal/server/server.go, translated on this run with every index
